@@ -20,7 +20,7 @@ MIN_SQRT_RATIO = 4295128739
 MAX_SQRT_RATIO = 1461446703485210103287273052203988822378723970342
 FP = 400  # fixed-point bits of the closed-form reference
 SQ = isqrt(10001 * (1 << (2 * FP)) // 10000)  # sqrt(1.0001) * 2^FP, truncated (rel. error < 2^-399)
-DECIMALS = [6, 8, 18]
+DECIMALS = [6, 8, 9, 18]  # 9: tokens with nine decimals give pools with an ODD decimals gap
 
 
 def fp_pow(n: int) -> int:
@@ -168,6 +168,54 @@ def check_nearest(part, H, t, s):
                        {"fn": "nearest_usable_tick", "tick": t, "spacing": s}, {"got": got})
 
 
+def market_wrappers(run: Run):
+    """UniLpMarket.price_to_tick / tick_to_price (the forms a strategy uses) on real markets positioned on bars in which the pool MOVED (the bar's price
+    column is the previous close, its closeTick the new one): the wrapper is the helper followed by rounding to the pool's spacing, whatever bar the market
+    is on and whatever was asked before; asked for the bar's own price it answers with that price's tick."""
+    from decimal import Decimal
+
+    from demeter import TokenInfo
+    from demeter.uniswap import UniV3Pool
+    from demeter.uniswap import helper as H
+    from mc.worlds import uni
+    from mc.worlds.kit import Ctx
+    from mc.worlds.adapters_uni import UniAdapter
+    from mc.worlds.catalog import _decimal_prices
+
+    pools = [("USDC6/WETH18 q0 0.05%", TokenInfo("USDC", 6), TokenInfo("WETH", 18), 0.05, True, 200010),
+             ("WETH18/USDC6 q1 0.05%", TokenInfo("WETH", 18), TokenInfo("USDC", 6), 0.05, False, -200010),
+             ("WBTC8/WETH18 q1 0.3%", TokenInfo("WBTC", 8), TokenInfo("WETH", 18), 0.3, False, 257400),
+             ("SOL9/WETH18 q1 1%", TokenInfo("SOL", 9), TokenInfo("WETH", 18), 1, False, 180000),
+             ("USDC6/SOL9 q0 0.3%", TokenInfo("USDC", 6), TokenInfo("SOL", 9), 0.3, True, 23040),
+             ("USDC6/USDT6 q0 0.01%", TokenInfo("USDC", 6), TokenInfo("USDT", 6), 0.01, True, 3)]
+    for name, t0, t1, fee, q0, centre in pools:
+        pool = UniV3Pool(t0, t1, fee, t0 if q0 else t1)
+        sp = pool.tick_spacing
+        closes = [centre, centre + 36 * sp + 1, centre - 90 * sp - 3, centre + 7]
+        data = uni.prepared(uni.raw_frame(closes, 10**9, 10**18, 10**16, open_tick=closes[0]), pool)
+        m = uni.make_market(pool, data, "uni")
+        price_df, quote = H.get_price_from_data(data, pool)
+        ctx = Ctx("c06", _decimal_prices(price_df), quote, [UniAdapter(m, {"in": (centre - 10 * sp, centre + 10 * sp)})], [(t0, 1), (t1, 1)], data.index)
+        for bar in range(len(closes)):
+            ctx.begin_bar(bar)
+            row = m.market_status.data
+            price_tick = closes[bar - 1] if bar else closes[0]
+            asked = [("bar-price", row.price, price_tick)]
+            for t in sorted({price_tick, closes[bar], centre, centre - 5 * sp, centre + 5 * sp + 1, closes[bar] + sp // 2, closes[bar] - 1}):
+                asked.append((f"tick_to_price({t})", m.tick_to_price(t), t))
+            for what, price, t in asked + asked[:1]:
+                run.count("evaluations")
+                run.count("market_wrapper_evaluations")
+                got = m.price_to_tick(price)
+                near = {H.nearest_usable_tick(u, sp) for u in (t - 1, t, t + 1)}  # the helpers are inverse within one tick; then the spacing rounds
+                plain = H.nearest_usable_tick(H.base_unit_price_to_tick(Decimal(price), t0.decimal, t1.decimal, q0), sp)
+                if got not in near or got != plain:
+                    run.violation("C06|market.price_to_tick", "UniLpMarket.price_to_tick does not return the usable tick nearest to the tick of the price it is asked about",
+                                  {"fn": "market.price_to_tick", "pool": name, "bar": bar, "asked": what, "tick_of_price": t, "close_tick_of_bar": closes[bar]},
+                                  {"got": got, "helper_then_spacing": plain, "acceptable": sorted(near)})
+                    break
+
+
 def main(run: Run):
     mode = run.pick("subset", "all")
     spacings = [1, 2, 3, 7, 10, 50, 60, 200]  # the pools' spacings (1, 10, 60, 200) and others, odd ones included: the helper takes any spacing
@@ -207,6 +255,7 @@ def main(run: Run):
                     run.violation("C06|sqrt_price_x96_to_tick|depends-on-earlier-calls", "the tick of an exact boundary sqrt price depends on what was converted before",
                                   {"fn": "sqrt_price_x96_to_tick", "tick": u, "asked_before": [x for x in seq]}, {"got": back})
                     break
+    market_wrappers(run)
     run.sample({"fn": "get_sqrt_ratio_at_tick", "tick": -887272, "expect": MIN_SQRT_RATIO})
     run.sample({"fn": "sqrt_price_x96_to_tick", "x": "ratio(t), ratio(t)-1, ratio(t)+1, mid, quartiles, ratio(t+1)-1",
                 "for": "every tick t"})
@@ -218,7 +267,7 @@ def main(run: Run):
                 "the inverse on ratio(t), ratio(t)±1, mid/quartile points and ratio(t+1)-1 with the expected tick decided by "
                 "integer comparison against ratio(); price<->tick helpers on "
                 + ("every tick" if mode == "all" else "ticks with <=2 set bits, ±2^k±1, every 997th and both ends")
-                + " x decimals {6,8,18}^2 x both quote orientations; nearest_usable_tick on every tick x spacings "
+                + " x decimals {6,8,9,18}^2 (odd and even decimals gaps) x both quote orientations; UniLpMarket.price_to_tick / tick_to_price on six pools positioned on bars in which the pool moved; nearest_usable_tick on every tick x spacings "
                 f"{spacings}. distinct_nontrivial = number of distinct ticks explored (each is a distinct input).",
         "ticks": run.counters.get("ticks", 0),
         "helper_cases": run.counters.get("helper_cases", 0),
@@ -248,6 +297,8 @@ def replay(run: Run, path):
         check_helpers(part, H, c["tick"])
     elif fn == "nearest_usable_tick":
         check_nearest(part, H, c["tick"], c["spacing"])
+    elif fn == "market.price_to_tick":
+        market_wrappers(part)
     for sig, v in part.violations.items():
         print("reproduced:", sig, v[0], v[2])
     print("REPLAY", "violations" if part.violations else "clean")
